@@ -32,7 +32,7 @@ def export_instance(prog, run_index=0, cancel=False, collab=None, overlap=False)
             'is_child': bool(d.get('is_oneof_child')), 'oneof': [short(c) for c in d.get('oneof_nodes', [])],
             'start': short(d['start_node']) if d.get('start_node') else '-', 'maxit': int(d.get('max_iterations') or 0),
             'real': real, 'attempts': int(spec.get('attempts') or 1), 'delay': int(round((spec.get('delay') or 0) * 1000)),
-            'excs': list(spec.get('exceptions') or ['Exception']), 'use_default': bool(spec.get('use_default')),
+            'excs': list(spec['exceptions'] if spec.get('exceptions') is not None else ['Exception']), 'use_default': bool(spec.get('use_default')),
             'mode': spec.get('mode', 'coro') if real else 'coro',
         }
         for rc, run in zip(runs, prog['runs']):
